@@ -193,7 +193,10 @@ def _world_history_clocked(w, pus, w2, ca, cb, ops, clock):
             clock.advance(n_)
             k = o[0]
             if k == 0:
-                env.prov = env.make(o[1], env.prov.file_name); r = [0]
+                try:
+                    env.prov = env.make(o[1], env.prov.file_name); r = [0]
+                except ValueError as e:          # (never raised by the unchanged constructor) recorded, the history goes on
+                    r = [1, _err(e)]
             elif k == 1:
                 flip ^= 1
                 r = _call((lambda: next(env.prov)) if flip else env.prov.get_and_increment)
@@ -218,7 +221,10 @@ def _world_history_clocked(w, pus, w2, ca, cb, ops, clock):
                 if r is None:
                     r = [0] + vals
             elif k == 7:
-                env.prov.max_bit_width = o[1]; r = [0]
+                try:
+                    env.prov.max_bit_width = o[1]; r = [0]
+                except ValueError as e:          # (never raised by the unchanged setter) recorded, the history goes on
+                    r = [1, _err(e)]
             elif k == 8:
                 env.prov.file_name = env.paths[1 - env.paths.index(env.prov.file_name)]; r = [0]
             elif k == 9:
@@ -413,16 +419,24 @@ def _explore_mem_subclass(a):
     ref = S.SeqCountProvider(w_link)
     for i, o in enumerate(ops):
         k = o[0]
+        if k in (7, 10):
+            # the reference first: a width / count it refuses (ValueError; the unchanged class stores anything) is not
+            # configured on the subclass either
+            try:
+                if k == 7:
+                    ref.max_bit_width = o[1]
+                else:
+                    ref.count = o[1]
+            except ValueError:
+                continue
         if k == 7:
             if variant == 0 and i % 2:
                 sub.max_bit_width = o[1]       # the subclass's own setter writes the shared configuration
             else:
                 link.width = o[1]
-            ref.max_bit_width = o[1]
             continue
         if k == 10:
             sub.count = o[1]
-            ref.count = o[1]
             continue
         n = 1 if k == 1 else o[1]
         for j in range(n):
@@ -453,11 +467,14 @@ def _explore_file_subclass(a):
             elif k == 2:
                 x, y = _call(sub.current), _call(ref.current)
             elif k == 7:
+                try:
+                    ref.max_bit_width = o[1]
+                except ValueError:               # (never raised by the unchanged setter) not configured on the subclass either
+                    continue
                 if variant == 0 and i % 2:
                     sub.max_bit_width = o[1]
                 else:
                     link.width = o[1]
-                ref.max_bit_width = o[1]
                 x = y = [0]
             elif k == 13:
                 line = bytes(o[1:]).decode("ascii")
@@ -544,10 +561,17 @@ def impl(op, a):
                 r = [0, next(p) if flip else p.get_and_increment()]
             elif k == 5:
                 r = [0] + [next(p) for _ in range(o[1])]
-            elif k == 7:
-                p.max_bit_width = o[1]; r = [0]
-            elif k == 10:
-                p.count = o[1]; r = [0]
+            elif k in (7, 10):
+                # (the unchanged provider stores whatever it is given.)  A refused assignment is recorded -- [1, class] in
+                # place of [0] -- and the history goes on with the provider as it is
+                try:
+                    if k == 7:
+                        p.max_bit_width = o[1]
+                    else:
+                        p.count = o[1]
+                    r = [0]
+                except ValueError as e:
+                    r = [1, _err(e)]
             else:
                 raise RuntimeError("bad history op")
             out += [r, [p.count, p.max_bit_width]]
@@ -998,7 +1022,16 @@ def _oracle_mem(a, ires):
     for i, o in enumerate(a[1:]):
         r, st = ires[2 + 2 * i], ires[3 + 2 * i]
         k = o[0]
-        if k == 7:
+        if k in (7, 10) and r[0] == 1:
+            # the assignment was refused.  Fine (ValueError, provider unchanged: checked below) when it would have left a
+            # count outside [0, 2^width - 1] -- a count set beyond the range, a width narrowed below the running count, a
+            # negative width: the unchanged provider stores such values and returns the stray count once before it wraps
+            nw, nc = (o[1], c) if k == 7 else (w, o[1])
+            if nw >= 0 and 0 <= nc <= 2 ** nw - 1:
+                return ("C19/SeqCountProvider.%s/refuses-valid" % ("max_bit_width" if k == 7 else "count"),
+                        "step %d: %s = %d refused with %s although count %d lies in [0, 2^%d - 1]" % (
+                            i, "max_bit_width" if k == 7 else "count", o[1], core.ERR_NAMES.get(r[1], r[1]), nc, nw))
+        elif k == 7:
             w = o[1]
         elif k == 10:
             c = o[1]
@@ -1067,7 +1100,12 @@ def _oracle_world(a, ires):
         k = o[0]
         f, f2 = files[cur], f2s[cur]
         touched = {cur}
-        if k == 0:
+        if k in (0, 7) and r[0] == 1:
+            # a width refused by the constructor / the setter: only a negative one is outside the domain
+            if o[1] >= 0:
+                return ("C19/FileSeqCountProvider.max_bit_width/refuses-valid", "step %d: width %d refused with %s" % (i, o[1], core.ERR_NAMES.get(r[1], r[1])))
+            touched = set()
+        elif k == 0:
             w = o[1]
             h = held_count(w, f)
             if (h is None and held_count(w, f2) != 0) or (h is not None and f2 != f):
